@@ -350,4 +350,173 @@ theorem setFile_eq_write {p : List Name} {t : N} {d d0 : Bytes} {m : Meta}
   rw [N.atPath_eq, N.atPath_eq, h]
   simp [sSetFile, sWrite]
 
+/-! ### an operation in the propagation gap -/
+
+theorem step_view_congr {s1 s2 : St} (h : s1.root.view = s2.root.view) (op : Op) :
+    (step false s1 op).2 = (step false s2 op).2 ∧
+    (step false s1 op).1.root.view = (step false s2 op).1.root.view := by
+  have a := step_refines s1 op
+  have b := step_refines s2 op
+  rw [h] at a
+  exact ⟨a.1.trans b.1.symm, a.2.trans b.2.symm⟩
+
+theorem atPath_append {α : Type} (act : L → R α) : ∀ (P rest : List Name) (l : L),
+    atPath (P ++ rest) act l = atPath P (atPath rest act) l := by
+  intro P
+  induction P with
+  | nil => intro rest l; simp [atPath]
+  | cons k ks ih =>
+    intro rest l
+    cases l with
+    | file d m => simp [atPath]
+    | dir m e =>
+      cases hc : e.child k with
+      | none => simp [atPath, hc]
+      | some c => simp [atPath, hc, ih rest c]
+
+theorem atPath_out {α : Type} (f : α → Out) (a : L → R α) : ∀ (p : List Name) (l : L),
+    atPath p (fun l => (a l).out f) l = (atPath p a l).out f := by
+  intro p
+  induction p with
+  | nil => intro l; simp [atPath]
+  | cons k ks ih =>
+    intro l
+    cases l with
+    | file d m => simp [atPath, R.out, Except.map]
+    | dir m e =>
+      cases hc : e.child k with
+      | none => simp [atPath, hc, R.out, Except.map]
+      | some c =>
+        simp only [atPath, hc]
+        rw [ih c]
+        simp [R.out]
+
+/-- withholding what the target hands upwards changes links only: same answer, same view -/
+theorem atPath_cut_view {α β : Type} (φ : β → α) {f : L → R α} {g : L → R β}
+    (h : ∀ l, (g l).res.map φ = (f l).res ∧ (g l).l = (f l).l) :
+    ∀ (P : List Name) (l : L), (atPath P g l).res.map φ = (atPath P f l).res ∧
+      (atPath P g l).l.view = (atPath P f l).l.view := by
+  intro P
+  induction P with
+  | nil => intro l; simp [atPath, h l]
+  | cons k ks ih =>
+    intro l
+    cases l with
+    | file d m => simp [atPath, Except.map]
+    | dir m e =>
+      cases hc : e.child k with
+      | none => simp [atPath, hc, Except.map]
+      | some c =>
+        have := ih c
+        simp [atPath, hc, this.1, L.view, Ents.put_view hc, this.2]
+
+theorem splitRun_view (k : Nat) (p : List Name) (act : L → R Out) (root : L) :
+    (splitRun k p act root).1.res = (atPath p act root).res ∧
+    (splitRun k p act root).1.l.view = (atPath p act root).l.view := by
+  unfold splitRun
+  split
+  · exact ⟨rfl, rfl⟩
+  · rename_i hk
+    have hp : p = p.take (p.length - k) ++ p.drop (p.length - k) := (List.take_append_drop _ _).symm
+    have key := atPath_cut_view (Prod.fst : Out × Option N → Out)
+      (f := atPath (p.drop (p.length - k)) act)
+      (g := fun D => ⟨(atPath (p.drop (p.length - k)) act D).res.map fun o => (o, (atPath (p.drop (p.length - k)) act D).up),
+                      (atPath (p.drop (p.length - k)) act D).l, none⟩)
+      (fun l => by
+        constructor
+        · cases (atPath (p.drop (p.length - k)) act l).res <;> simp [Except.map]
+        · rfl)
+      (p.take (p.length - k)) root
+    rw [← atPath_append, ← hp] at key
+    simp only at key ⊢
+    split
+    · rename_i e he
+      rw [he] at key
+      simp [Except.map] at key
+      exact ⟨key.1, key.2⟩
+    · rename_i o he
+      rw [he] at key
+      simp [Except.map] at key
+      exact ⟨key.1, key.2⟩
+    · rename_i o nd he
+      rw [he] at key
+      simp [Except.map] at key
+      exact ⟨key.1, key.2⟩
+
+theorem Ents.cached_child {k : Name} {e : Ents} {c : L} (h : e.cached k = some c) : e.child k = some c := by
+  induction e with
+  | nil => simp [Ents.cached] at h
+  | dead k' n r ih =>
+    by_cases h2 : k' = k
+    · simp [Ents.cached, h2] at h
+    · simp [Ents.cached, h2] at h; simp [Ents.child, h2, ih h]
+  | live k' n l r ih =>
+    by_cases h2 : k' = k
+    · simp [Ents.cached, h2] at h; simp [Ents.child, h2, h]
+    · simp [Ents.cached, h2] at h; simp [Ents.child, h2, ih h]
+
+theorem Ents.setLink_view_cached {k : Name} {e : Ents} {c : L} (h : e.cached k = some c) (v : N) :
+    (e.setLink k v).view = e.view := by
+  induction e with
+  | nil => simp [Ents.cached] at h
+  | dead k' n r ih =>
+    by_cases h2 : k' = k
+    · simp [Ents.cached, h2] at h
+    · simp [Ents.cached, h2] at h; simp [Ents.setLink, Ents.view, h2, ih h]
+  | live k' n l r ih =>
+    by_cases h2 : k' = k
+    · simp [Ents.setLink, Ents.view, h2]
+    · simp [Ents.cached, h2] at h; simp [Ents.setLink, Ents.view, h2, ih h]
+
+/-- a link written under a cached child does not change what the file system shows -/
+theorem linkUp_view (n : Name) (nd : N) : ∀ (Q : List Name) (l : L), l.cachedAt (Q ++ [n]) = true →
+    (atPath Q (actLinkUp n nd) l).l.view = l.view := by
+  intro Q
+  induction Q with
+  | nil =>
+    intro l h
+    cases l with
+    | file d m => simp [L.cachedAt] at h
+    | dir m e =>
+      cases hc : e.cached n with
+      | none => simp [L.cachedAt, hc] at h
+      | some c => simp [atPath, actLinkUp, L.view, Ents.setLink_view_cached hc]
+  | cons q Q ih =>
+    intro l h
+    cases l with
+    | file d m => simp [L.cachedAt] at h
+    | dir m e =>
+      cases hc : e.cached q with
+      | none => simp [L.cachedAt, hc] at h
+      | some c =>
+        simp [L.cachedAt, hc] at h
+        have hch := Ents.cached_child hc
+        simp [atPath, hch, L.view, Ents.put_view hch, ih c h, NL.set_find_self _ (Ents.child_some hch)]
+
+theorem resume_view (s : St) (pend : Option (List Name × N)) : (resume s pend).root.view = s.root.view := by
+  cases pend with
+  | none => rfl
+  | some pn =>
+    obtain ⟨P, nd⟩ := pn
+    cases P with
+    | nil => rfl
+    | cons a P' =>
+      simp only [resume]
+      split
+      · rename_i hc
+        have hP : a :: P' = (a :: P').dropLast ++ [lastName (a :: P')] := by
+          cases hl : (a :: P').getLast? with
+          | none => simp at hl
+          | some last =>
+            obtain ⟨ys, hys⟩ := List.getLast?_eq_some_iff.mp hl
+            simp [lastName, hl, hys]
+        rw [hP] at hc
+        exact linkUp_view _ nd _ _ hc
+      · rfl
+
+theorem getNode_view (p : List Name) (l : L) : (atPath p actGetNode l).l.view = l.view := by
+  cases hr : (atPath p actGetNode l).res with
+  | ok a => exact query_atPath query_get p _ _ _ ((atPath_sim sim_getNode p).ok l a hr)
+  | error e => exact ((atPath_sim sim_getNode p).err l e hr).2
+
 end C19
